@@ -31,6 +31,17 @@ CLAIMS["C13"] = dict(
   text="Decides that every handler effect of the inputrc parser is dominated by the top-of-stack test, that the pushed/toggled condition depends on the enclosing level (violated on the pinned tree: known finding, pinned tests expect the leak), that keymap/sequence/action/macro flow unswapped into the bind table, and the $if form ↔ option field table. The full iff over all programs (scanner classification of tokens) is not decided.",
   ref="§5 C13")
 
+CLAIMS["C18"] = dict(
+  level="other",
+  technique="static analysis: backward value slices (codec store/replay), constant-argument table, loop ordering (must-pass-through) on go/ssa",
+  text="Decides the macro codec agreement (EscapeMacro on every store, Unescape on every replay path), tail feeding, RecordKeys-before-FlushUsed in every main-loop iteration, what the recorder stores, and that argument keys returned by ReadKey/Pop are recorded; reports the rune→byte narrowing of fed keys as known findings. Equality of buffer effects for all macros is not decided.",
+  ref="§5 C18")
+CLAIMS["C03"] = dict(
+  level="other",
+  technique="static analysis: table agreement between bind literals (type-checked constants) and the command registry; guard facts, must-pass-through and value slices on the dispatcher's SSA",
+  text="Decides that every built-in bound action resolves to a registered command (or a frozen reviewed list of unimplemented names), that MatchMain/MatchLocal account for read keys exactly once with the right slices, that each dispatch iteration consumes one key, that the command looked up is the matched bind's and never a macro's, macro binds are re-fed decoded at the tail, and nil commands are not called. The prefix-matching semantics of matchBind are value-level and not decided.",
+  ref="§5 C03")
+
 NA_REASONS = {
  "C15": "Cycle coverage is arithmetic over a grid whose shape is computed at run time from candidate widths and terminal width; no pairing/ownership/ordering/table clause is a necessary condition, and a bounds proof of rows[y][x] needs the same run-time shape invariants. A check would be a brittle proxy (DESIGN.md §5 C15, §8).",
 }
